@@ -1,4 +1,4 @@
-/* C07-corpus: known C07:generic-no-promotion
+/* C07-corpus: pass   (was known C07:generic-no-promotion, repaired in /repo)
    C11 6.5.1.1 (DR 481): the controlling expression of _Generic undergoes lvalue conversion only;
    c2mir also applies the integer promotions, so every type narrower than int selects `int` */
 #include <stdio.h>
